@@ -1,3 +1,3 @@
 SPECIFICATION Spec
 CONSTANTS MaxNodes = 4
- NRandom = 3000
+ NRandom = 8000
